@@ -50,7 +50,8 @@ func edgeVals(d ref.DT) []interface{} {
 		return []interface{}{d.Code(0), d.Code(-1), d.Code(1), d.Code(2), d.Code(3), d.Code(-2), d.Code(7), d.Code(100), d.Code(0), d.Code(10)}
 	case ref.CFloat:
 		if d.Name == "float32" {
-			return []interface{}{float32(math.Inf(1)), float32(math.Inf(-1)), float32(math.NaN()), float32(math.Copysign(0, -1)), float32(0), float32(1), float32(-1), float32(2.5), float32(math.MaxFloat32), float32(math.SmallestNonzeroFloat32), float32(-7), float32(0.5)}
+			return []interface{}{float32(math.Inf(1)), float32(math.Inf(-1)), float32(math.NaN()), float32(math.Copysign(0, -1)), float32(0), float32(1), float32(-1), float32(2.5), float32(math.MaxFloat32), float32(math.SmallestNonzeroFloat32), float32(-7), float32(0.5),
+				math.Float32frombits(0x15ae43fd)} // 7.038531e-26: its shortest decimal rounds differently via float64 (double rounding witness for text formats)
 		}
 		return []interface{}{math.Inf(1), math.Inf(-1), math.NaN(), math.Copysign(0, -1), 0.0, 1.0, -1.0, 2.5, math.MaxFloat64, math.SmallestNonzeroFloat64, -7.0, 0.5}
 	case ref.CComplex:
